@@ -131,7 +131,8 @@ pub fn plan(r: &mut Rng, sid: usize) -> Value {
     if sid % 6 == 4 {
         let zs: Vec<&'static str> = ZONES.iter().cloned().take(12).collect();
         let distinct: Vec<Value> = (0..12).map(|i| { let ns = instant(r); let tz = zs[i % zs.len()];
-            match i % 3 { 0 => json!({"op": "CZ.offset", "args": {"ns": ns, "tz": tz}}), 1 => json!({"op": "CZ.get", "args": {"ns": ns, "tz": tz, "f": "hour"}}), _ => json!({"op": "CZ.offset", "args": {"ns": ns, "tz": tz}}) } }).collect();
+            match i % 4 { 0 => json!({"op": "CZ.offset", "args": {"ns": ns, "tz": tz}}), 1 => json!({"op": "CZ.get", "args": {"ns": ns, "tz": tz, "f": "hour"}}),
+                          _ => json!({"op": "CZ.get", "args": {"ns": ns, "tz": tz, "f": "offsetSeconds"}}) } }).collect();
         let calls = if n > 8 { 80 } else { 160 };
         let ph = Value::Array((0..n).map(|_| Value::Array((0..calls).map(|_| r.pick(&distinct[..]).clone()).collect())).collect());
         return json!({"n": n, "kind": "clean", "phases": [ph]});
